@@ -36,7 +36,7 @@ func reviewed(fn, expr, class, reason string, needSort bool) {
 
 func init() {
 	reviewed("analysis.newBoundsAnalyzer", "relTypeMap", "collect", "alternatives of a union type; UpperBound/SetConforms treat them as a set", false)
-	reviewed("analysis.(*BoundsAnalyzer).BoundsCheck", "predMap", "collect", "predicates are sorted by symbol before they are checked", true)
+	reviewed("analysis.(*BoundsAnalyzer).BoundsCheck", "predSet", "collect", "predicates are sorted by symbol and arity before they are checked", true)
 	reviewed("analysis.RewriteClause", "defVarMap", "collect", "feeds a VarList that is only searched with Find", false)
 	reviewed("analysis.NewVarList", "m", "collect", "VarList is used as a set (Find/Contains/AsMap)", false)
 	reviewed("analysis.(*Analyzer).checkPredicates", "a.decl", "collect", "only the text of an error message", false)
